@@ -152,11 +152,12 @@ PROPS = {
         "level_text": "cellToChildren output is compared element-wise with an independent enumerator for every cell of resolutions 0-2 at several depths, every pentagon of every "
                       "resolution at every depth that fits the cap, pentagon children that leave the centre chain at every level and random hexagons at all resolutions; every "
                       "child is sent back through cellToParent; the converse (membership at the reference rank under every ancestor) is checked for sampled cells down to res 15. "
-                      "ASan+UBSan with exact-size child arrays. Not all (cell, childRes) pairs.",
+                      "ASan+UBSan with exact-size child arrays. Families too deep to list (10-15 levels): the library's own child iterator, calibrated in-process on shallow families, is placed on a "
+                      "reference child and stepped (carries through 0-15 digits, counted per digit run); skipped and counted if the iterator is not observable. Not all (cell, childRes) pairs.",
         "level_note": "Trusted base: reference child enumerator/rank (vf_kit.c). Centre coincidence uses C02's tolerance.",
         "technique": "runtime monitoring: element-wise comparison with a documentation-derived child enumerator under ASan/UBSan with exact-size buffers",
-        "evaluations": ["children.cases", "ancestor.pairs", "errors.calls", "sizeonly.cases"],
-        "rule": "cases: (cell, childRes) child lists, (cell -> every ancestor) membership chains, (cell, hostile resolution) error codes. Non-trivial = child list with >1 child, or a chain "
+        "evaluations": ["children.cases", "ancestor.pairs", "errors.calls", "sizeonly.cases", "jump.cases"],
+        "rule": "cases: (cell, childRes) child lists, (cell -> every ancestor) membership chains, (cell, hostile resolution) error codes, (parent, childRes, position) iterator steps. Non-trivial = child list with >1 child, or a chain "
                 "from a cell of res>0; distinct by hash of (cell, childRes).",
         "require": {"children.cases": 5000, "children.cells": 1000000, "ancestor.pairs": 10000, "errors.rejected": 1000, "sizeonly.cases": 3000, "children.families_eight_levels_deep": 2},
         "assumptions": ["reference enumerator equals the documented digit layout"],
